@@ -417,6 +417,28 @@ def handmade_aps():
         "graphs": [{"args": [0, 1, 4], "res": [7]},
                    {"args": [2, 3, 4], "res": [3, 5]}],
     }
+    # round 10 (`shared_body_rejected`, Props/C04 `exTwoOwners`): two If nodes hold the SAME two argument-less
+    # branch graphs - no argument list can trip the flat Scope, only the multiple-owner check rejects it
+    yield "two-ifs-share-both-bodies", {
+        "nodes": [arg("f"), arg("b"),
+                  node("neg", [0]),                # 2 (else branch)
+                  node("neg", [0]),                # 3 (then branch)
+                  node("if", [1], [1, 2]),         # 4
+                  node("if", [1], [1, 2]),         # 5: the same Graph objects
+                  node("sum", [4, 5])],            # 6
+        "graphs": [{"args": [0, 1], "res": [6]}, {"args": [], "res": [2]}, {"args": [], "res": [3]}],
+    }
+    # round 10 (`shared_argument_rejected`, Props/C04 `exSharedArgs`): SIBLING Loop bodies over one argument list
+    yield "sibling-bodies-share-arguments", {
+        "nodes": [arg("f"), arg("b"), arg("i"), arg("b"), arg("f"),
+                  node("add", [4, 0]),             # 5 (first body)
+                  node("loop", [0], [1]),          # 6
+                  node("add", [4, 0]),             # 7 (second body)
+                  node("loop", [6], [2])],         # 8
+        "graphs": [{"args": [0, 1], "res": [8]},
+                   {"args": [2, 3, 4], "res": [3, 5]},
+                   {"args": [2, 3, 4], "res": [3, 7]}],
+    }
     # sibling Loops: the second body uses the first body's carried argument (design probe p4)
     yield "sibling-argument-leak", {
         "nodes": [arg("f"), arg("b"), arg("i"), arg("b"), arg("f"),
